@@ -51,6 +51,9 @@ C16_IdleAtEnd == (J /\ Last) => (T.allReturned /\ T.hung = <<>> /\ T.queueObject
 C16_ConnLimits == (JJ /\ IsConn(i)) => /\ (T.l > 0 => T.maxTotal <= T.l)
                                        /\ (T.el > 0 => T.maxPerPath <= T.el)
                                        /\ T.allReturned
+\* ... and after a storm of cancellations (all waiters of a path give up at the same instant) the limiter is idle: no entry is
+\* left in its table and fresh requests for the path are admitted at once
+C16_ConnIdleAtEnd == (JJ /\ IsConn(i)) => T.idle
 \* conformance only: the observed state is the one the specification predicts for this event
 K16_Conforms  == J => (E.settled /\ \E k \in 1..Len(E.exps) : E.st = E.exps[k])
 =============================================================================
